@@ -76,7 +76,7 @@ def selftest(prop):
         # index
         ti = replay.run_case({"id": 1, "family": "index", "nkeys": 2, "nvals": 2, "lookups": [[1, 0], [1, 2]],
                               "ops": [{"op": "insert", "b": [1, 2], "o": 1}]})
-        c2 = dict(NKeys=2, NVals=2, PreferWildcard=True, Judge="ref")
+        c2 = dict(NKeys=2, NVals=2, PreferWildcard=False, Judge="ref")
         done.append(_expect(run, "TraceIndex", ti, lambda b: [e for e in b["evs"] if e["op"] == "check"][1].update(res=False),
                             "check.false-negative", c2))
     finally:
